@@ -330,6 +330,16 @@ EXT4 = {
  "C20": "Session 4: llvm-profdata's list syntax is a model (parseList) and, after fix 4f2eb74, parseList (mergeStdin ps) = ps.map (1,.) under the exact guard (`_false`: newline, trailing blank, non-UTF-8: finding), tied to the REAL llvm-profdata; after fix 232bfd3 the private empty worker directory is a theorem for every input name and interleaving (C20_private_directory, C20_every_schedule), composed with C19; export-log theorems (one export per found binary per merged profile, against its own profile); multi-translation-unit gcc programs in digit-named directories with a g++ template unit at threads 1/2/3/8; content-dependent stub tools; finding C20-same-program-exported-twice.",
 }
 
+
+# ---- session 4, third wave (appended after EXT4) ----
+EXT5 = {
+ "C02": "Third wave: the whole-run model also takes LLVM-mode gcno+gcda inputs (Gcno byte model) and writes markdown, html (as a directory: every page, index, badge, coverage.json) and several -t types into -o dir (RunAll.runHtml / runMulti): each file of a multi-type run is proved to be the bytes of the single-type run (C02_run_multi_is_single_runs), tied byte for byte to the real binary on 82 runs per quick tier.",
+ "C03": "Third wave: html and markdown reports of a WHOLE RUN decode, through the strict readers, to the C01 aggregate after the exclusion markers (C03_run_html_end_to_end, C03_run_markdown_end_to_end), exactly one html page per reported file with a relative path and an openable source under the html-disk guards, nothing else in the directory but indexes, badges and coverage.json.",
+ "C05": "Third wave: the fixed point at whole-run level with exclusion markers, --filter, globs and any input kinds in the first run (C05_run_second_run_markers; C05_run_fixed_point_markers_partial under the sharp rewrite guards; `_false` witness: a JaCoCo input without --branch).",
+ "C15": "Third wave: k copies, structure independence, gcda order and the orphan-gcno case are proved THROUGH the whole run, from gcno/gcda bytes to lcov report bytes (C15_run_k_copies, C15_run_structure_independent_of_gcda, C15_run_gcda_order_irrelevant, C15_run_orphan_all_zero), tied on runs of the real binary over directories with gcno/gcda pairs.",
+ "C16": "Third wave: the six --excl-* options are PATTERNS, not bits: a Lean model of the regex crate's parser (23 error kinds, nest and size limits), is_match specification and a verified matcher (C16_regex_matcher_decides) for a stated subset (literals, classes incl. Unicode Perl and POSIX, escapes, groups, alternation, all repetitions and assertions; everything else answered `unsupported`, never guessed), tied to the real crate on generated patterns and lines, the Unicode tables on every scalar value, the binary (invalid value = exit 2); the exclusion rule is proved with patterns (C16_regex_lines/_branches/_independent), literal, anchored and LCOV_EXCL_* markers are instances, and the regex model is conservative over the substring model of the whole-run ties.",
+}
+
 # stale sentences of the session-2 texts, replaced when the manifest is generated
 TEXT_SUB = {
  "C01": [("Proof: 18 theorems about", "Proof: theorems about")],
@@ -353,7 +363,8 @@ NOTE_SUB4 = {
  "C12": [("FS assumptions as in C11; in-process only.", "FS assumptions as in C11 (finite tree with symbolic links; the Java/Kotlin walk order is a parameter read from the real readdir); in-process plus a small CLI stream.")],
  "C13": [("Rust floating point and the third-party serialisers are not modelled;", "IEEE f32/f64 arithmetic and {:.p$} are modelled for markdown, badges and coverage.json (exact), the other formats' figures are judged by the audited printedOK/printedOK2; tabled's layout is modelled for ASCII names (display width of non-ASCII text is not);")],
  "C14": [("Known findings C14-lcov-branch-number-alloc and C14-jacoco-branch-vector-alloc (a number in the input is an allocation size).", "Known findings C14-lcov-branch-number-alloc, C14-jacoco-branch-vector-alloc (a number in the input is an allocation size), C14-jacoco-name-prefix-amplification, C14-gcov-json-gzip-amplification. Cost counters correspond to Rust operations by construction of the cost views; hash-map operations are counted as O(1); time and RSS of the real readers are measured as ratios on scaling families.")],
- "C16": [("the path plumbing of rewrite_paths around the removal loop is exercised, not modelled.", "the path plumbing of rewrite_paths around the removal loop is modelled in RunAll.run (rewritePathsF) and tied to the binary.")],
+ "C16": [("the path plumbing of rewrite_paths around the removal loop is exercised, not modelled.", "the path plumbing of rewrite_paths around the removal loop is modelled in RunAll.run (rewritePathsF) and tied to the binary."),
+         ("regex::is_match as per-line bits,", "regex::is_match as per-line bits in the base theorems and as a modelled, tied subset of the regex crate in the C16_regex_* theorems (regex-automata trusted below the parser/semantics level; patterns outside the subset are declined),")],
  "C17": [("File system, walkdir, zip, symlink/hard-link extraction are exercised, not modelled;", "The zip crate's index (first place, last data for a repeated raw name), canonical entry names and the listing/lookup are modelled; the file system, walkdir and symlink/hard-link extraction are exercised, not modelled; arguments are assumed pairwise non-nested and directory inputs free of links to directories (findings);"),
          (" non-enclosed zip names are outside the model (skipped since 5f37686).", " unsafe zip names (.., absolute, NUL) are skipped (modelled).")],
  "C18": [("quick-xml, serde_json and Tera are modelled as escape tables and tied at run time;", "quick-xml, serde_json and Tera's escaping are modelled and tied at run time, whole HTML pages byte for byte; user templates given through --output-config-file are outside every theorem;")],
@@ -377,7 +388,7 @@ def main():
         for a, b in TEXT_SUB.get(pid, []):
             assert a in text, (pid, a)
             text = text.replace(a, b)
-        c["text"] = f"{n} audited theorems. " + text + (" " + e["add"] if e.get("add") else "") + (" " + EXT4[pid] if pid in EXT4 else "")
+        c["text"] = f"{n} audited theorems. " + text + (" " + e["add"] if e.get("add") else "") + (" " + EXT4[pid] if pid in EXT4 else "") + (" " + EXT5[pid] if pid in EXT5 else "")
         if e.get("note_sub"):
             assert e["note_sub"][0] in c["note"], pid
             c["note"] = c["note"].replace(e["note_sub"][0], e["note_sub"][1])
